@@ -53,6 +53,8 @@ func CommonDiscards(e *wref.Events, off func(string) bool) string {
 		return "known:shift-amount>=32"
 	case e.BitsClamp > 0 && off("bits.out-of-range"):
 		return "known:bits-out-of-range"
+	case e.RoundTie > 0 && off("round.tie"):
+		return "known:round-tie"
 	case e.DivZero > 0 && off("div.zero"):
 		return "known:int-div-by-zero"
 	case e.DivOverflow > 0 && off("div.overflow"):
